@@ -1,1 +1,449 @@
-fn main() { lruverif::hello(); }
+//! vcheck: orchestrator, worker and replay entry points.
+
+use std::collections::BTreeMap;
+use std::path::{Path, PathBuf};
+use std::process::{Child, Command, Stdio};
+use std::time::{Duration, Instant};
+
+use serde_json::{json, Value};
+
+use lruverif::engines::{self, WorkerArgs};
+use lruverif::ops::{Case, Fate};
+use lruverif::runner::*;
+
+#[global_allocator]
+static GLOBAL: lruverif::alloc::VAlloc = lruverif::alloc::VAlloc;
+
+fn root() -> PathBuf {
+    PathBuf::from(std::env::var("VERIF_ROOT").unwrap_or_else(|_| "/verif".to_string()))
+}
+
+fn arg_value(args: &[String], name: &str) -> Option<String> {
+    args.iter().position(|a| a == name).and_then(|i| args.get(i + 1)).cloned()
+}
+
+fn main() {
+    let args: Vec<String> = std::env::args().collect();
+    lruverif::detect_alloc();
+    let code = match args.get(1).map(|s| s.as_str()) {
+        Some("run") => orchestrate(&args[2..]),
+        Some("worker") => worker(&args[2..]),
+        Some("replay") => replay(&args[2..]),
+        Some("exec-case") => exec_case(&args[2..]),
+        _ => {
+            eprintln!("usage: vcheck run <PROP> [--tier quick|thorough] [--seed N]\n       vcheck replay <PROP> <file>");
+            2
+        }
+    };
+    std::process::exit(code);
+}
+
+// ------------------------------------------------------------------ worker
+
+fn worker(args: &[String]) -> i32 {
+    let prop = match args.first().and_then(|p| static_prop(p)) {
+        Some(p) => p,
+        None => { eprintln!("worker: unknown property"); return 2; }
+    };
+    let engine = args.get(1).cloned().unwrap_or_default();
+    let seed: u64 = arg_value(args, "--seed").and_then(|s| s.parse().ok()).unwrap_or(0);
+    let index: u64 = arg_value(args, "--index").and_then(|s| s.parse().ok()).unwrap_or(0);
+    let nworkers: u64 = arg_value(args, "--nworkers").and_then(|s| s.parse().ok()).unwrap_or(1);
+    let cases: u32 = arg_value(args, "--cases").and_then(|s| s.parse().ok()).unwrap_or(100);
+    let thorough = args.iter().any(|a| a == "--thorough");
+    let out = PathBuf::from(arg_value(args, "--out").unwrap_or_else(|| "/dev/null".into()));
+    lruverif::tracked::install_panic_hook(true);
+    let known = load_known(&root());
+    let wa = WorkerArgs { prop, thorough, seed, index, nworkers, cases, out: &out, known: &known };
+    let acc = match engine.as_str() {
+        "cache" => engines::worker_cache(&wa),
+        "panic" => engines::worker_panic(&wa),
+        "walks" => engines::worker_walks(&wa, Fate::Drop, 6, 3),
+        "walks-forget" => engines::worker_walks(&wa, Fate::Forget, 6, 1),
+        other => { eprintln!("worker: unknown engine {}", other); return 2; }
+    };
+    let text = serde_json::to_string(&acc.to_json()).unwrap();
+    if std::fs::write(&out, text).is_err() {
+        eprintln!("worker: cannot write {}", out.display());
+        return 2;
+    }
+    let _ = std::fs::remove_file(current_file(&out));
+    0
+}
+
+/// Runs one case file and exits normally; used to test whether a case
+/// crashes the process.
+fn exec_case(args: &[String]) -> i32 {
+    let prop = args.first().and_then(|p| static_prop(p));
+    let text = match args.get(1).map(std::fs::read_to_string) {
+        Some(Ok(t)) => t,
+        _ => return 2,
+    };
+    lruverif::tracked::install_panic_hook(true);
+    match Case::from_text(&text) {
+        Ok(case) => { let _ = run_case(&case, prop, false); 0 },
+        Err(_) => 2,
+    }
+}
+
+fn replay(args: &[String]) -> i32 {
+    let prop = match args.first().and_then(|p| static_prop(p)) {
+        Some(p) => p,
+        None => { eprintln!("replay: unknown property"); return 2; }
+    };
+    let path = match args.get(1) { Some(p) => p.clone(), None => return 2 };
+    let text = match std::fs::read_to_string(&path) {
+        Ok(t) => t,
+        Err(e) => { eprintln!("replay: {}: {}", path, e); return 2; }
+    };
+    lruverif::tracked::install_panic_hook(false);
+    let case = match Case::from_text(&text) {
+        Ok(c) => c,
+        Err(e) => { eprintln!("replay: {}", e); return 2; }
+    };
+    let known = load_known(&root());
+    let out = run_case(&case, Some(prop), true);
+    for t in &out.trace {
+        println!("  {}", t);
+    }
+    for f in &out.fails {
+        println!("FAILURE tags={} sig={} step={} : {}", f.tags.join("+"), f.sig, f.step, f.msg);
+    }
+    match judge(&out.fails, prop, &known) {
+        Verdict::Violation(_) => {
+            println!("VIOLATION property={} replay={}", prop, path);
+            1
+        },
+        Verdict::Known(sig) => {
+            println!("KNOWN-FINDING: property={} {}", prop, sig);
+            0
+        },
+        _ => {
+            println!("replay: property {} held on this case", prop);
+            0
+        },
+    }
+}
+
+// ------------------------------------------------------------ orchestrator
+
+#[derive(Clone, Debug)]
+struct Job {
+    engine: &'static str,
+    asan: bool,
+    workers: u64,
+    cases: u32,
+    timeout_s: u64,
+}
+
+fn jobs_for(prop: &str, thorough: bool) -> Vec<Job> {
+    let t = thorough;
+    let cache = |asan: bool, q: u32, th: u32| Job { engine: "cache", asan, workers: 16, cases: if t { th } else { q }, timeout_s: if t { 5400 } else { 900 } };
+    match prop {
+        "C01" | "C02" | "C03" | "C04" | "C05" | "C10" | "C11" | "C13" | "C15" | "C19" | "C20" =>
+            vec![cache(false, 400, 4000)],
+        "C06" | "C07" | "C14" =>
+            vec![cache(false, 400, 4000), cache(true, 100, 1200)],
+        "C12" => vec![
+            Job { engine: "walks", asan: false, workers: 16, cases: 0, timeout_s: 1800 },
+            cache(false, 300, 3000),
+            Job { engine: "walks", asan: true, workers: 16, cases: 0, timeout_s: 1800 },
+            cache(true, 60, 800),
+        ],
+        "C16" => vec![
+            Job { engine: "panic", asan: false, workers: 16, cases: if t { 1500 } else { 120 }, timeout_s: if t { 5400 } else { 900 } },
+            Job { engine: "panic", asan: true, workers: 16, cases: if t { 400 } else { 30 }, timeout_s: if t { 5400 } else { 900 } },
+        ],
+        "C17" => vec![
+            Job { engine: "walks-forget", asan: false, workers: 16, cases: 0, timeout_s: 1800 },
+            cache(false, 200, 3000),
+            Job { engine: "walks-forget", asan: true, workers: 16, cases: 0, timeout_s: 1800 },
+            cache(true, 50, 800),
+        ],
+        _ => vec![],
+    }
+}
+
+fn level_of(prop: &str) -> &'static str {
+    match prop {
+        "C16" | "C17" => "fault_enumeration",
+        _ => "exploration",
+    }
+}
+
+fn rule_of(prop: &str) -> &'static str {
+    match prop {
+        "C01" => "cases = generated configuration + operation sequence, judged after every step; non-trivial = a step where the incoming/grown entry exceeded the free space or a limit was lowered below current_size; distinct = (operation, hasher class, boundary selector class)",
+        "C02" => "non-trivial = a size-changing mutate, an overflowing mutate or a different-size replacement happened (entry later leaves through any path); distinct = (kind, direction, position of the entry)",
+        "C03" => "non-trivial = an operation evicted at least one entry; distinct = (operation, hasher class, number evicted capped at 4, subject was LRU, replacement)",
+        "C04" => "non-trivial = under a colliding hasher, a key was replaced/removed-and-reinserted or the table was rebuilt; distinct = (event, operation, hasher)",
+        "C05" => "non-trivial = a promoting operation hit a non-MRU entry in a cache of >= 3 entries, or a table rebuild happened between two order checks; distinct = (operation, position class, hasher class)",
+        "C06" => "non-trivial = an owning iterator was dropped partially consumed, or the table was rebuilt with entries inside; distinct = (event, iterator kind / operation, consumption class)",
+        "C07" => "non-trivial = a capacity operation rebuilt a table holding >= 8 entries; distinct = (grow/shrink, hasher class, size class)",
+        "C10" => "non-trivial = a rejection with >= 2 simultaneously true failure conditions, or an acceptance at exact fit; distinct = (operation, expected outcome, condition vector)",
+        "C11" => "non-trivial = a size-changing mutate on a cache of >= 2 entries; distinct = (shrink / grow-fit / grow-evict1 / grow-evictN / overflow, position, hasher class)",
+        "C12" => "non-trivial = a walk on length >= 2 mixing next and next_back and calling past exhaustion; distinct = (iterator kind, length, call pattern)",
+        "C13" => "non-trivial = a capacity operation that rebuilt the table of a non-empty cache, a failing try_reserve on a non-empty cache, or a churn of >= 200 rounds; distinct = (operation, argument class, hasher class)",
+        "C14" => "non-trivial = clone of a cache with >= 3 entries of mixed sizes; distinct = (hasher class, length class, what happens to the clone)",
+        "C15" => "non-trivial = a retain that rejects >= 1 and keeps >= 1 of >= 3 entries; distinct = (length, keep/reject pattern)",
+        "C16" => "cases = (state, victim operation, callback kind, n) with a panic injected at the n-th callback of that kind, every n enumerated per state; non-trivial = the victim had already changed something, n >= 2, or the panic came from the closure/predicate; distinct = (victim, callback kind, n class, table rebuilt)",
+        "C17" => "non-trivial = an iterator forgotten after >= 1 yielded item on length >= 2, followed by further use; distinct = (iterator kind, length, items yielded)",
+        "C19" => "non-trivial = a shared-reference operation on a cache with >= 2 entries that hits a non-MRU entry / absent key / full traversal; distinct = (operation, position, key form)",
+        "C20" => "non-trivial = an operation on a cache with >= 8 entries; distinct = (operation, evicting, rebuilding, size class)",
+        _ => "",
+    }
+}
+
+fn bin_path(asan: bool) -> PathBuf {
+    let h = root().join("harness");
+    if asan {
+        h.join("target-asan/x86_64-unknown-linux-gnu/debug/vcheck")
+    }
+    else {
+        std::env::current_exe().unwrap_or_else(|_| h.join("target/debug/vcheck"))
+    }
+}
+
+struct Running {
+    child: Child,
+    out: PathBuf,
+    index: u64,
+    started: Instant,
+}
+
+/// Is a process crash while running this case evidence about `prop`?
+fn crash_relevant(prop: &str, case_text: &str) -> bool {
+    match prop {
+        "C06" | "C07" => true,
+        "C12" => case_text.contains("iterwalk"),
+        "C14" => case_text.contains("clone"),
+        "C16" => case_text.contains("inject"),
+        "C17" => case_text.contains("forget"),
+        _ => false,
+    }
+}
+
+fn crashes(bin: &Path, asan: bool, prop: &str, file: &Path) -> bool {
+    let mut cmd = Command::new(bin);
+    cmd.arg("exec-case").arg(prop).arg(file).stdout(Stdio::null()).stderr(Stdio::null());
+    if asan {
+        cmd.env("ASAN_OPTIONS", "detect_leaks=0:exitcode=77:abort_on_error=0:allocator_may_return_null=1");
+    }
+    match cmd.status() {
+        Ok(s) => s.code().map(|c| c != 0 && c != 2 && c != 101).unwrap_or(true),
+        Err(_) => false,
+    }
+}
+
+fn orchestrate(args: &[String]) -> i32 {
+    let started = Instant::now();
+    let prop = match args.first().and_then(|p| static_prop(p)) {
+        Some(p) => p,
+        None => { eprintln!("run: unknown property"); return 2; }
+    };
+    let tier = arg_value(args, "--tier").or_else(|| std::env::var("VERIF_TIER").ok()).unwrap_or_else(|| "quick".into());
+    let thorough = tier == "thorough";
+    let seed: u64 = arg_value(args, "--seed").or_else(|| std::env::var("VERIF_SEED").ok())
+        .and_then(|s| s.parse().ok()).unwrap_or(20260901);
+    let root = root();
+    let tmp = root.join("harness/target/run").join(format!("{}-{}", prop, std::process::id()));
+    let _ = std::fs::remove_dir_all(&tmp);
+    if std::fs::create_dir_all(&tmp).is_err() {
+        eprintln!("run: cannot create {}", tmp.display());
+        return 2;
+    }
+    let known = load_known(&root);
+    let mut total = Accum::default();
+    let mut per_engine: BTreeMap<String, Value> = BTreeMap::new();
+    let mut inconclusive: Vec<String> = Vec::new();
+    let mut crash_violations: Vec<(String, String)> = Vec::new();
+
+    for (jn, job) in jobs_for(prop, thorough).iter().enumerate() {
+        let bin = bin_path(job.asan);
+        if !bin.exists() {
+            inconclusive.push(format!("binary {} missing (engine {}{})", bin.display(), job.engine, if job.asan { " under ASan" } else { "" }));
+            continue;
+        }
+        let mut running: Vec<Running> = Vec::new();
+        for index in 0..job.workers {
+            let out = tmp.join(format!("job{}-w{}.json", jn, index));
+            let mut cmd = Command::new(&bin);
+            cmd.arg("worker").arg(prop).arg(job.engine)
+                .arg("--seed").arg(seed.to_string())
+                .arg("--index").arg(index.to_string())
+                .arg("--nworkers").arg(job.workers.to_string())
+                .arg("--cases").arg(job.cases.to_string())
+                .arg("--out").arg(&out)
+                .stdout(Stdio::null());
+            if thorough { cmd.arg("--thorough"); }
+            let errf = std::fs::File::create(tmp.join(format!("job{}-w{}.stderr", jn, index))).ok();
+            match errf { Some(f) => { cmd.stderr(Stdio::from(f)); }, None => { cmd.stderr(Stdio::null()); } }
+            if job.asan {
+                cmd.env("ASAN_OPTIONS", "detect_leaks=0:exitcode=77:abort_on_error=0:allocator_may_return_null=1");
+            }
+            match cmd.spawn() {
+                Ok(child) => running.push(Running { child, out, index, started: Instant::now() }),
+                Err(e) => inconclusive.push(format!("cannot start worker: {}", e)),
+            }
+        }
+        let mut job_acc = Accum::default();
+        for mut r in running {
+            let status = loop {
+                match r.child.try_wait() {
+                    Ok(Some(s)) => break Some(s),
+                    Ok(None) => {
+                        if r.started.elapsed() > Duration::from_secs(job.timeout_s) {
+                            let _ = r.child.kill();
+                            let _ = r.child.wait();
+                            break None;
+                        }
+                        std::thread::sleep(Duration::from_millis(20));
+                    },
+                    Err(_) => break None,
+                }
+            };
+            match status {
+                None => inconclusive.push(format!("worker {} of engine {} timed out after {} s", r.index, job.engine, job.timeout_s)),
+                Some(s) if s.success() => {
+                    match std::fs::read_to_string(&r.out).ok().and_then(|t| serde_json::from_str::<Value>(&t).ok()) {
+                        Some(v) => job_acc.merge(&Accum::from_json(&v)),
+                        None => inconclusive.push(format!("worker {} wrote no result", r.index)),
+                    }
+                },
+                Some(s) => {
+                    let code = s.code();
+                    let cur = std::fs::read_to_string(current_file(&r.out)).unwrap_or_default();
+                    let stderr_tail = std::fs::read_to_string(tmp.join(format!("job{}-w{}.stderr", jn, r.index)))
+                        .map(|t| t.lines().rev().take(40).collect::<Vec<_>>().into_iter().rev().collect::<Vec<_>>().join("\n")).unwrap_or_default();
+                    if code == Some(101) || code == Some(2) || cur.is_empty() {
+                        inconclusive.push(format!("worker {} of engine {} failed with status {:?}: {}", r.index, job.engine, code, stderr_tail));
+                    }
+                    else if crash_relevant(prop, &cur) {
+                        // the process died while running this case: minimise and report
+                        job_acc.crashed += 1;
+                        let file = tmp.join(format!("crash-{}-{}.case", jn, r.index));
+                        let _ = std::fs::write(&file, &cur);
+                        let mut text = cur.clone();
+                        if crashes(&bin, job.asan, prop, &file) {
+                            if let Ok(case) = Case::from_text(&cur) {
+                                let min = ddmin_ops(&case, |c| {
+                                    let _ = std::fs::write(&file, c.to_text());
+                                    crashes(&bin, job.asan, prop, &file)
+                                }, 120);
+                                text = min.to_text();
+                            }
+                            let what = format!("process died (status {:?}{}) while running this case; last lines of stderr:\n{}",
+                                code, if job.asan { ", AddressSanitizer build" } else { "" }, stderr_tail);
+                            let body = format!("# replay for property {}\n# {}\n{}", prop, what.replace('\n', "\n# "), text);
+                            crash_violations.push((body, format!("crash:{}", job.engine)));
+                        }
+                        else {
+                            inconclusive.push(format!("worker {} died with status {:?} but the case does not crash on its own", r.index, code));
+                        }
+                    }
+                    else {
+                        job_acc.crashed += 1;
+                        *job_acc.foreign.entry("process-crash".into()).or_insert(0) += 1;
+                    }
+                },
+            }
+        }
+        per_engine.insert(format!("{}{}", job.engine, if job.asan { "+asan" } else { "" }), json!({
+            "workers": job.workers, "cases": job_acc.cases, "steps": job_acc.steps,
+            "distinct_nontrivial": job_acc.nt.len(), "exhaustive": job_acc.exhaustive,
+        }));
+        let ex = job_acc.exhaustive;
+        total.merge(&job_acc);
+        if job.engine.starts_with("walks") && !job.asan {
+            total.exhaustive = ex;
+        }
+    }
+
+    // ---- report
+    let findings_dir = root.join("findings").join(prop);
+    let _ = std::fs::create_dir_all(&findings_dir);
+    let mut violation_lines = Vec::new();
+    let mut n = 0;
+    let mut seen_sigs = Vec::new();
+    for v in &total.violations {
+        if seen_sigs.contains(&v.sig) { continue; }
+        seen_sigs.push(v.sig.clone());
+        n += 1;
+        let path = findings_dir.join(format!("{}-seed{}-{}.case", tier, seed, n));
+        let _ = std::fs::write(&path, &v.replay_text);
+        violation_lines.push(format!("VIOLATION property={} replay={}", prop, path.display()));
+        eprintln!("violation: [{}] {}", v.sig, v.msg);
+    }
+    for (body, sig) in &crash_violations {
+        if is_known(&known, prop, sig).is_some() {
+            *total.known.entry(sig.clone()).or_insert(0) += 1;
+            continue;
+        }
+        n += 1;
+        let path = findings_dir.join(format!("{}-seed{}-{}.case", tier, seed, n));
+        let _ = std::fs::write(&path, body);
+        violation_lines.push(format!("VIOLATION property={} replay={}", prop, path.display()));
+    }
+    for (sig, count) in &total.known {
+        let desc = is_known(&known, prop, sig).map(|k| k.description.clone()).unwrap_or_default();
+        println!("KNOWN-FINDING: property={} signature={} occurrences={} {}", prop, sig, count, desc);
+    }
+    let wall = started.elapsed().as_secs_f64();
+    let nt = total.nt.len();
+    let evidence = json!({
+        "property_id": prop,
+        "tier": if thorough { "thorough" } else { "quick" },
+        "seed": seed,
+        "level": level_of(prop),
+        "coverage": {
+            "evaluations": total.cases,
+            "judged_steps": total.steps,
+            "distinct_nontrivial": nt,
+            "nontrivial_cases": total.nt_cases,
+            "rule": rule_of(prop),
+            "samples": total.samples,
+            "exhaustive": total.exhaustive,
+            "engines": per_engine,
+            "class_histogram": total.events,
+            "foreign_alarms": total.foreign,
+            "known_findings_matched": total.known,
+            "skipped_ops": total.skipped,
+            "process_crashes": total.crashed,
+            "nontrivial_signatures_sample": total.nt.iter().take(40).collect::<Vec<_>>(),
+        },
+        "assumptions": [
+            "sizes reported by MemSize implementations are at most 2^40 so that sums do not overflow usize",
+            "reserve is only called with arguments for which its documentation does not promise a panic",
+            "the reference model (harness/src/model.rs) and the tagged oracles (harness/src/steps.rs, exec.rs, exec2.rs) state the property correctly",
+            "hooks (feature verif-hooks) are read-only and report the true link structure",
+        ],
+        "wall_s": wall,
+        "violations": violation_lines.len(),
+        "inconclusive": inconclusive,
+        "notes": total.notes,
+    });
+    let ev_dir = root.join("evidence");
+    let _ = std::fs::create_dir_all(&ev_dir);
+    let _ = std::fs::write(ev_dir.join(format!("{}.json", prop)), serde_json::to_string_pretty(&evidence).unwrap());
+    let _ = std::fs::remove_dir_all(&tmp);
+
+    println!("{} {}: {} cases, {} judged steps, {} distinct non-trivial, {} foreign, {:.1} s",
+        prop, tier, total.cases, total.steps, nt, total.foreign.values().sum::<u64>(), wall);
+    for l in &violation_lines {
+        println!("{}", l);
+    }
+    if !violation_lines.is_empty() {
+        return 1;
+    }
+    if !inconclusive.is_empty() {
+        for i in &inconclusive {
+            eprintln!("inconclusive: {}", i);
+        }
+        return 2;
+    }
+    if total.cases == 0 || nt < 2 {
+        eprintln!("inconclusive: generator health: {} cases, {} distinct non-trivial", total.cases, nt);
+        return 2;
+    }
+    0
+}
